@@ -129,9 +129,12 @@ pub fn probe(c: &mut Case, input: &[u8], what: &str) {
         }
     }
     if let Some(Ok(m)) = p.call("pack:parse", || fe9_arc::parse(input).map_err(|e| format!("{:?}", e))) {
-        // oracle: no entry may extend past the buffer
+        // oracle: the entry table and every entry must lie inside the buffer
         if input.len() >= 8 {
             let count = u16::from_be_bytes([input[4], input[5]]) as usize;
+            if 8 + 16 * count > input.len() {
+                p.c.fail("over_declaring_header_accepted", "over_declared:pack_count", format!("fe9_arc::parse accepted a header declaring {} entries ({} bytes of table) in a {}-byte buffer [{}] input={}", count, 16 * count, input.len(), what, hex_short(input, 64)));
+            }
             for i in 0..count {
                 let e = 8 + 16 * i;
                 if e + 16 <= input.len() {
@@ -502,6 +505,23 @@ pub fn run(cx: &mut Ctx) {
             probe(c, &v, "pack entry whose size field exceeds the file");
         }
     });
+    if !cfg!(miri) {
+        for count in [4095usize, 4096, 4097, 5000, 8192, 65535] {
+            cx.case("pack_many_entries", |c| {
+                c.sit("pack_entry_count_around_4096_and_65535");
+                let files: Vec<(String, Vec<u8>)> = (0..count).map(|i| (format!("f{}", i), vec![i as u8; i % 3])).collect();
+                let mut r = Rng::new(count as u64);
+                let img = crate::refs::containers::pack_build(&files, &crate::refs::containers::PackPlan::default(), &mut r);
+                probe(c, &img, "conforming pack with many entries");
+                // the same header over a buffer that ends inside the entry table / right after it
+                for keep in [8 + 16 * 4096usize, 8 + 16 * 4096 + 8, 8 + 16 * (count - 1), 8 + 16 * count] {
+                    if keep < img.len() {
+                        probe(c, &img[..keep], "pack with many entries, buffer cut in or right after the entry table");
+                    }
+                }
+            });
+        }
+    }
     cx.case("arc_fields", |c| {
         c.sit("arc_offset_plus_0x60_overflow");
         let files = vec![("a.bin".to_string(), vec![1u8, 2, 3]), ("b.bin".to_string(), vec![4u8; 9])];
